@@ -55,6 +55,7 @@ def parse_operations(
         raise TypeError("context must be a ParsingContext")
 
     ops: List[IROperation] = []
+    skipped: List[str] = []
 
     for path, item in paths.items():
         if not isinstance(item, Mapping):
@@ -160,11 +161,16 @@ def parse_operations(
                     f"Skipping operation parsing for {method.upper()} {path}: {e}",
                     UserWarning,
                 )
+                skipped.append(f"{method.upper()} {path}: {e}")
                 continue
             else:
                 # Post-process the parsed operation to fill in schema names
                 post_process_operation(op, context)
                 ops.append(op)
+
+    # A client that silently lacks operations of the spec is worse than no client: fail visibly
+    if skipped:
+        raise ValueError("Could not parse %d operation(s): %s" % (len(skipped), "; ".join(skipped)))
 
     # Post-condition check
     if not all(isinstance(op, IROperation) for op in ops):
